@@ -47,6 +47,23 @@ func tagLiveness(e *env.Env, v int) {
 	}
 }
 
+// tagPoolShort2: the same for the second reward denomination.
+func tagPoolShort2(e *env.Env, d, v int) {
+	asset, _ := e.K.GetAssetByDenom(e.Ctx, Denoms[0])
+	del, found := e.K.GetDelegation(e.Ctx, Dels[d], Vals[v], Denoms[0])
+	if !found {
+		return
+	}
+	var coins sdk.Coins
+	var err error
+	if Caught(func() { coins, _, err = e.K.CalculateDelegationRewards(e.Ctx, del, AV(e, Vals[v]), asset) }) || err != nil {
+		return // judged by the claim itself
+	}
+	if e.Bank.Balance(e.Ak.GetModuleAddress(types.RewardsPoolName), DustDenom).LT(coins.AmountOf(DustDenom)) {
+		nd.Tag("reward-pool-short")
+	}
+}
+
 func tagPoolShort(e *env.Env, d, v int) {
 	asset, _ := e.K.GetAssetByDenom(e.Ctx, Denoms[0])
 	del, found := e.K.GetDelegation(e.Ctx, Dels[d], Vals[v], Denoms[0])
@@ -105,14 +122,17 @@ func H_C05_delegate() {
 func H_C05_claim() {
 	id := "C05.step.claim"
 	ps := shapeActor("shape")
-	slashed := nd.Choice("slashed100", 2)
-	st := Build(ps, Opts{Rewards: true})
+	slashed := nd.Choice("slashed100", 3) // 2: instead, rewards accrued in two denominations (first-seen order stake, aaaaa)
+	st := Build(ps, Opts{Rewards: true, History2: slashed == 2})
 	e := st.E
 	if slashed == 1 {
 		zeroSlash(e, 0, 0)
 	}
 	tagLiveness(e, 0)
 	tagPoolShort(e, 0, 0)
+	if slashed == 2 {
+		tagPoolShort2(e, 0, 0)
+	}
 	ms := keeper.NewMsgServerImpl(e.K)
 	var err error
 	nd.Reach(id)
